@@ -199,9 +199,27 @@ def check_registry(ctx, readers: list[Reader], rule: str = "R-REGISTRY") -> int:
     return n
 
 
+def resolve_delegates(repo, writers: list[FuncInfo]) -> list[FuncInfo]:
+    """A writer whose body is `return <other writer>(self)` is the other writer: analyse that one once."""
+    out: list[FuncInfo] = []
+    for w in writers:
+        body = [st for st in w.node.body if not (isinstance(st, ast.Expr) and isinstance(st.value, ast.Constant))]
+        tgt = w
+        if len(body) == 1 and isinstance(body[0], ast.Return) and isinstance(body[0].value, ast.Call) and \
+                len(body[0].value.args) == 1 and not body[0].value.keywords and w.positional_params and \
+                dotted(body[0].value.args[0]) == w.positional_params[0]:
+            t = repo.resolve_name(w.module, dotted(body[0].value.func) or "")
+            if isinstance(t, FuncInfo):
+                tgt = t
+        if all(tgt is not o for o in out):
+            out.append(tgt)
+    return out
+
+
 def check_type_key(ctx, writers: list[FuncInfo], readers: list[Reader], rule: str = "R-TYPEKEY") -> None:
     repo = ctx.repo
     classes = axis_classes(repo)
+    writers = resolve_delegates(repo, writers)
     wkeys = {w.qualname: analyse_writer(w) for w in writers}
     for r in readers:
         for wq, wk in wkeys.items():
